@@ -97,7 +97,9 @@ static int c18x_build_nv(Buf *b, uint32_t *ord_out, int *kind_out) {
     uint32_t idx = c18x_nv_index();
     t12_begin(b, (uint16_t)(T12_TAG0 + ntag), ord);
     switch (ord) {
-    case T12_ORD_NV_ReadValue: case 0xD0: b_u32(b, idx); b_u32(b, c18x_nv_off()); b_u32(b, c18x_nv_size()); break;
+    case T12_ORD_NV_ReadValue: case 0xD0: { uint32_t off = c18x_nv_off(), n = c18x_nv_size();
+        if (chance(20)) { off = 0xFFFFFFF0u + rnd(16); n = (uint32_t)(0x100000000ULL - off) + rnd(8); }   /* offset + size wraps to a small in-range value */
+        b_u32(b, idx); b_u32(b, off); b_u32(b, n); break; }
     case T12_ORD_NV_WriteValue: case 0xCE: { uint32_t n = c18x_nv_size(); if (n > 4300) n = 40; b_u32(b, idx); b_u32(b, c18x_nv_off()); b_u32(b, chance(92) ? n : c18_interesting_u32()); b_fill(b, n, rnd(3)); break; }
     case T12_ORD_NV_DefineSpace: {
         uint32_t at = (uint32_t[]){0x1, 0x10001, 0x2, 0x20002, 0x4, 0x40004, 0x2001, 0x4001, 0x8001, 0x80000001u, 0x1001, 0, 0x6, 0x60000}[rnd(14)];
